@@ -492,6 +492,9 @@ func (m *Machine) cancelObj(g T, o *Object) {
 	c := m.C
 	done := m.heap.Get(o, 0).(Ptr)
 	for _, d := range done.Alts {
+		if m.race != nil {
+			m.raceRelease(m.race.cur, d.Obj)
+		}
 		closed := m.heap.Get(d.Obj, 0).(T)
 		m.heap.Set(d.Obj, 0, c.Or(closed, c.And(g, d.G)))
 	}
